@@ -8,6 +8,7 @@ lazily into the finitely many cases of their static type (enum variants, boolean
 to a pattern constant); there is no constraint solving.  Anything the evaluator cannot interpret
 becomes `Top` and rules that need that cell fail closed.
 """
+import os
 import sys
 
 sys.setrecursionlimit(max(sys.getrecursionlimit(), 20000))
@@ -15,6 +16,22 @@ sys.setrecursionlimit(max(sys.getrecursionlimit(), 20000))
 
 # ---------------------------------------------------------------------------------------------------
 # values
+
+
+# VERIF_COVERAGE=<file>: the keys of all bodies evaluated by this process are appended at exit (a development aid:
+# which functions of /repo no rule ever evaluates)
+_COVER = None
+if os.environ.get("VERIF_COVERAGE"):
+    class _Cover(set):
+        def add(self, k):
+            if k not in self:
+                set.add(self, k)
+                try:
+                    with open(os.environ["VERIF_COVERAGE"], "a") as f:
+                        f.write(k + "\n")
+                except Exception:
+                    pass
+    _COVER = _Cover()
 
 
 class Top:
@@ -473,7 +490,15 @@ class Interp:
         """Run `run()` once per decision vector.  Returns list of Case."""
         cases = []
         stack = [[]]
+        import time as _time
+        t_end = _time.time() + float(getattr(self, "budget_s", None) or os.environ.get("VERIF_EXPLORE_BUDGET_S", "90"))
         while stack:
+            if _time.time() > t_end:
+                # a wall-clock budget per exploration: an input the rule meant to be small has exploded (a function that
+                # now inspects an unknown value in depth); the exploration is unanalysable, it does not hang the check
+                cases.append(Case([], Top("exploration exceeded its time budget (%d cases so far)" % len(cases)), []))
+                self.tops.append("exploration time budget")
+                break
             script = stack.pop()
             self.script = script
             self.trace = []
@@ -545,6 +570,8 @@ class Interp:
         if len(params) != len(args):
             return self.top("arity mismatch calling %s: %d params, %d args" % (key, len(params), len(args)))
         fr = Frame(self, key, thir, env, inst)
+        if _COVER is not None:
+            _COVER.add(key)
         for p, a in zip(params, args):
             if p["pat"] is None:
                 continue
@@ -568,6 +595,8 @@ class Interp:
         if self.depth >= self.max_depth + 4:
             return self.top("inlining depth exceeded at closure %s" % clo.key)
         env = dict(clo.env)  # captured variables are shared cells; new bindings are local
+        if _COVER is not None:
+            _COVER.add(clo.key)
         fr = Frame(self, clo.key, thir, env, clo.inst)
         params = thir["params"][1:]
         if len(params) != len(args):
@@ -706,7 +735,9 @@ class Interp:
         for p in (rpath, path):
             st = self.rule_stubs.get(p)
             if st is not None:
-                return st(self, args, fn, expr)
+                r = st(self, args, fn, expr)
+                if r is not NotImplemented:     # a stub may decline (a generic path such as Iterator::next on another type)
+                    return r
         if fn.get("ctor"):
             c = fn["ctor"]
             return Adt(c["adt"], c["variant"], {str(i): a for i, a in enumerate(args)})
